@@ -91,15 +91,41 @@ class Gen:
         return ("o",) + tuple((S(k), self.doc(depth - 1)) for k in ks)
 
     # ----- queries -----
-    def raw_name(self):
-        """raw selector text: shorthand, 'x' or "x" """
+    def raw_name(self, quoted=False):
+        """raw selector text: shorthand, 'x' or "x"; mostly names that occur in the document"""
         r = self.r
-        k = r.choice(self.names())
-        return self.spell_name(k)
+        dn = getattr(self, "doc_names", None)
+        if dn and r.random() < 0.8:
+            k = r.choice(dn)
+        else:
+            k = r.choice(self.names())
+        return self.spell_name(k, quoted)
 
-    def spell_name(self, k):
+    def pair(self):
+        """a document and a query directed at it (names and literal values drawn from it)"""
+        d = self.doc()
+        names, vals = [], []
+        def walk(t):
+            if isinstance(t, tuple) and t and t[0] == "o":
+                for k, v in t[1:]:
+                    names.append(unS(k))
+                    walk(v)
+            elif isinstance(t, tuple) and t and t[0] == "a":
+                for v in t[1:]:
+                    walk(v)
+            else:
+                vals.append(t)
+        walk(d)
+        self.doc_names = names
+        self.doc_vals = vals
+        q = self.query()
+        self.doc_names = None
+        self.doc_vals = None
+        return q, d
+
+    def spell_name(self, k, quoted=False):
         r = self.r
-        shorthand_ok = k != "" and all(c.isalpha() or c == "_" or ord(c) >= 0x80 or (c.isdigit() and i > 0) for i, c in enumerate(k)) \
+        shorthand_ok = (not quoted) and k != "" and all(c.isalpha() or c == "_" or ord(c) >= 0x80 or (c.isdigit() and i > 0) for i, c in enumerate(k)) \
             and all(ord(c) < 0xD800 or ord(c) > 0xDFFF for c in k) and all((not c.isalpha()) or ord(c) >= 0x80 or c.isascii() for c in k)
         if shorthand_ok and not any(c.isascii() and not (c.isalnum() or c == "_") for c in k) and r.random() < 0.5:
             return k
@@ -120,12 +146,12 @@ class Gen:
             return r.choice([MAXI, -MAXI, MAXI - 1, 2**31, -2**31, 2**32, 2**52])
         return r.randrange(-4, 5)
 
-    def selector(self, fdepth):
+    def selector(self, fdepth, quoted=False):
         r = self.r
         kinds = [k for k in self.p.selectors if k != "filter" or fdepth > 0]
         k = r.choice(kinds)
         if k == "name":
-            return ("name", S(self.raw_name()))
+            return ("name", S(self.raw_name(quoted)))
         if k == "wild":
             return "wild"
         if k == "idx":
@@ -139,9 +165,9 @@ class Gen:
         r = self.r
         if self.p.multi and r.random() < 0.25:
             n = r.randrange(2, 4)
-            inner = ("sels",) + tuple(self.selector(fdepth) for _ in range(n))
+            inner = ("sels",) + tuple(self.selector(fdepth, quoted=r.random() < 0.9) for _ in range(n))
         elif self.p.programmatic and r.random() < 0.1:
-            inner = ("sels",) + tuple(self.selector(fdepth) for _ in range(r.randrange(0, 2)))
+            inner = ("sels", self.selector(fdepth))
         else:
             inner = ("sel", self.selector(fdepth))
         if self.p.desc and r.random() < 0.2:
@@ -157,6 +183,19 @@ class Gen:
 
     def literal(self):
         r = self.r
+        dv = getattr(self, "doc_vals", None)
+        if dv and r.random() < 0.5:
+            v = r.choice(dv)
+            if v == "null":
+                return "null"
+            if v[0] == "b":
+                return ("bool", v[1])
+            if v[0] == "i" and abs(v[1]) <= MAXI:
+                return ("int", v[1])
+            if v[0] == "f":
+                return ("flt", v[1], v[2])
+            if v[0] == "s":
+                return ("str", v)
         k = r.randrange(8)
         if k == 0:
             return "null"
@@ -226,7 +265,8 @@ class Gen:
                 b = self.value_arg(fdepth)
             return (f, a, b)
         name = r.choice(["in", "nin", "none_of", "any_of", "subset_of"] * 3 + ["foo", "size"])
-        n = 2 if r.random() < 0.85 else r.randrange(0, 4)
+        # documented arity is 2; fewer arguments are explored, more are outside C14's domain
+        n = 2 if r.random() < 0.85 else r.randrange(0, 3)
         return ("custom", S(name)) + tuple(self.value_arg(fdepth) for _ in range(n))
 
     def comparable(self, fdepth):
@@ -454,7 +494,9 @@ def parser_shaped(t):
         return True
     if t[0] == "s":
         return True
-    if t[0] == "sels" and len(t) < 3:
+    if t[0] == "sels" and (len(t) < 3 or any(isinstance(x, tuple) and x[0] == "name" and is_shorthand(unS(x[1])) for x in t[1:])):
+        return False
+    if t[0] == "name" and unS(t[1]) == "":
         return False
     if t[0] == "or":
         if len(t) < 3 or any(x[0] == "or" for x in t[1:]):
@@ -467,3 +509,12 @@ def parser_shaped(t):
         if f[0] == "atom" and f[1][0] == "atest" and not f[1][2]:
             return False
     return all(parser_shaped(x) for x in t[1:])
+
+
+def valid_ast(t):
+    """inside the domain of the evaluator properties: every bracketed selection has a selector"""
+    if not isinstance(t, tuple) or not t or t[0] == "s":
+        return True
+    if t[0] == "sels" and len(t) < 2:
+        return False
+    return all(valid_ast(x) for x in t[1:])
